@@ -169,6 +169,8 @@ impl<V> Signed<V> {
 def add_base_types(U):
     """hashes, numbers, View, BlockHeader, Payload, Schedule (stubbed methods), Signed."""
     U.raw(common.STD_OPTION_COPIED + common.STD_COMBINATORS + PRELUDE_CRYPTO, label="prelude crypto")
+    # R-path: the `validator::` module prefix is dropped wherever a function body still carries it (e.g. the free threshold functions)
+    U.tail_subs = list(U.tail_subs) + [("validator::", "", None)]
     U.item(F_GEN, "struct GenesisHash", attrs=D_COPY)
     U.item(F_BLOCK, "struct PayloadHash", attrs=D_COPY)
     U.item(F_BLOCK, "struct BlockNumber", attrs=D_COPY)
